@@ -84,15 +84,159 @@ pub fn drive(w: &World, svc: &mut Box<dyn Erased>, req: Req) -> Seen {
                 }
             };
             // the clock is virtual: a call that never resolves runs into this guard at once
-            match tokio::time::timeout(std::time::Duration::from_secs(86_400), one).await {
+            let seen = match tokio::time::timeout(std::time::Duration::from_secs(86_400), one).await {
                 Ok(s) => s,
                 Err(_) => Seen::Hung,
+            };
+            // whatever the layer has spawned by now gets to run before the inner call log is read
+            for _ in 0..6 {
+                tokio::task::yield_now().await;
             }
+            seen
         })
     }));
     match r {
         Ok(s) => s,
         Err(p) => Seen::Panicked(p.downcast_ref::<String>().cloned().or_else(|| p.downcast_ref::<&str>().map(|s| s.to_string())).unwrap_or_else(|| "panic".into())),
+    }
+}
+
+/// Like `drive`, but the caller's task is busy elsewhere: the call future is polled once,
+/// then not at all for a (virtual) second - during which whatever the layer spawned or
+/// scheduled runs on - and only then to its end.
+pub fn drive_late(w: &World, svc: &mut Box<dyn Erased>, req: Req) -> Seen {
+    let r = catch_unwind(AssertUnwindSafe(|| {
+        w.block_on(async {
+            let one = async {
+                match futures::future::poll_fn(|cx| svc.poll_ready(cx)).await {
+                    Err(e) => Seen::ReadinessErr(e),
+                    Ok(()) => {
+                        let mut fut = svc.call(req);
+                        if let std::task::Poll::Ready(r) = futures::poll!(&mut fut) {
+                            return match r {
+                                Ok(r) => Seen::Ok(r),
+                                Err(e) => Seen::Err(e),
+                            };
+                        }
+                        tokio::time::sleep(std::time::Duration::from_secs(1)).await;
+                        match fut.await {
+                            Ok(r) => Seen::Ok(r),
+                            Err(e) => Seen::Err(e),
+                        }
+                    }
+                }
+            };
+            let seen = match tokio::time::timeout(std::time::Duration::from_secs(86_400), one).await {
+                Ok(s) => s,
+                Err(_) => Seen::Hung,
+            };
+            // whatever the layer has spawned by now gets to run before the inner call log is read
+            for _ in 0..6 {
+                tokio::task::yield_now().await;
+            }
+            seen
+        })
+    }));
+    match r {
+        Ok(s) => s,
+        Err(p) => Seen::Panicked(p.downcast_ref::<String>().cloned().or_else(|| p.downcast_ref::<&str>().map(|s| s.to_string())).unwrap_or_else(|| "panic".into())),
+    }
+}
+
+/// A caller that polls late must not make the layer call the wrapped service more often, nor
+/// change the outcome: every variant, in its plain and call-multiplying configurations, is driven once
+/// promptly and once late with the same inner script (the inner service answers at once or after 5 ms).
+fn late_poll_grid(ctx: &mut Ctx) {
+    for &m in ALL.iter() {
+        let modes: Vec<Mode> = if m.can_multiply() { vec![Mode::Plain, Mode::Multiply, Mode::MultiplyAlt] } else { vec![Mode::Plain] };
+        for mode in modes {
+            for (out, answer_ms) in [(Out::Ok, 5u64), (Out::Err(0), 5), (Out::Ok, 0), (Out::Err(0), 0)] {
+                let mut seen: Vec<(String, usize)> = vec![];
+                for late in [false, true] {
+                    let w = World::new(0, 10, InnerMode::Script, 1);
+                    let plog: Arc<Mutex<ProbeLog>> = Default::default();
+                    let mut svc = build_on_kind(m, mode, Kind::Strict, GatedInner::new(w.inner.clone()), &plog, None);
+                    {
+                        let mut g = w.inner.lock().unwrap();
+                        g.script.clear();
+                        g.default_plan = if answer_ms == 0 { Plan::now(out) } else { Plan::after(answer_ms, out) };
+                    }
+                    let s = if late { drive_late(&w, &mut svc, Req::new(70, 1)) } else { drive(&w, &mut svc, Req::new(70, 1)) };
+                    ctx.rep.evaluations += 1;
+                    let sig = match s {
+                        Seen::Ok(_) => "ok".to_string(),
+                        Seen::Err(EOut::PassThrough(_)) => "pass_through_err".to_string(),
+                        other => format!("{other:?}"),
+                    };
+                    let calls = w.inner.lock().unwrap().calls.len();
+                    seen.push((sig, calls));
+                }
+                let config = format!("{} {:?} inner answers {:?} after {} ms", m.name(), mode, out, answer_ms);
+                // (a late caller may legitimately see fewer attempts - a hedge that is not needed any
+                // more - but never more, and never another outcome)
+                if seen[0].0 != seen[1].0 || seen[1].1 > seen[0].1 {
+                    ctx.viol("late_poll_changed_the_call", &format!("{}::late_poll", m.name()), config.clone(), json!({"polled": "once, then not for 1 s"}), format!("prompt caller: {:?} (outcome, inner calls); late caller: {:?}", seen[0], seen[1]));
+                }
+                ctx.rep.witness("late_polled_call_compared", 1);
+                ctx.rep.distinct.insert(config);
+            }
+        }
+    }
+}
+
+/// Layers whose plain configuration needs neither a timer nor a spawner on the pinned tree must
+/// stay that way: one request is driven by hand (no-op waker) on a thread that has no tokio
+/// context at all. `expected` lists, per variant, whether that works today.
+fn no_runtime_grid(ctx: &mut Ctx) {
+    #[derive(Clone)]
+    struct Now;
+    impl tower::Service<Req> for Now {
+        type Response = Resp;
+        type Error = trv_core::inner::InnerErr;
+        type Future = std::future::Ready<Result<Resp, trv_core::inner::InnerErr>>;
+        fn poll_ready(&mut self, _cx: &mut std::task::Context<'_>) -> std::task::Poll<Result<(), Self::Error>> {
+            std::task::Poll::Ready(Ok(()))
+        }
+        fn call(&mut self, req: Req) -> Self::Future {
+            std::future::ready(Ok(Resp { serial: 1, req: req.id, key: req.key }))
+        }
+    }
+    let results: Vec<(Mw, String)> = std::thread::spawn(|| {
+        trv_core::quiet_panics();
+        ALL.iter()
+            .map(|&m| {
+                let r = catch_unwind(AssertUnwindSafe(|| {
+                    let mut svc = build(m, Mode::Plain, Now, None);
+                    let waker = trv_core::ilv::noop_waker();
+                    let mut cx = std::task::Context::from_waker(&waker);
+                    if !matches!(svc.poll_ready(&mut cx), std::task::Poll::Ready(Ok(()))) {
+                        return "not ready".to_string();
+                    }
+                    let mut fut = svc.call(Req::new(90, 1));
+                    for _ in 0..4 {
+                        if let std::task::Poll::Ready(r) = std::future::Future::poll(fut.as_mut(), &mut cx) {
+                            return if r.is_ok() { "ok".to_string() } else { "error".to_string() };
+                        }
+                    }
+                    "pending".to_string()
+                }));
+                (m, r.unwrap_or_else(|_| "panicked".to_string()))
+            })
+            .collect()
+    })
+    .join()
+    .unwrap();
+    // what the pinned tree does (a layer that sleeps, spawns or times out needs a runtime)
+    let works_without = [Mw::Bulkhead, Mw::RateLimiter, Mw::CircuitBreaker, Mw::CircuitBreakerWithFallback, Mw::Retry, Mw::Cache, Mw::Fallback, Mw::Reconnect, Mw::Adaptive, Mw::Coalesce, Mw::Chaos];
+    for (m, got) in results {
+        ctx.rep.evaluations += 1;
+        if std::env::var("VERIF_DEBUG_NORT").is_ok() {
+            eprintln!("no runtime: {} -> {got}", m.name());
+        }
+        if works_without.contains(&m) && got != "ok" {
+            ctx.viol("needs_a_runtime_now", &format!("{}::no_runtime", m.name()), format!("{} Plain, one request driven by hand on a thread without a tokio context", m.name()), json!([]), format!("this layer's plain configuration needed no runtime; now: {got}"));
+        }
+        ctx.rep.witness("request_driven_without_a_runtime", 1);
     }
 }
 
@@ -390,6 +534,8 @@ fn main() {
     let mut ctx = Ctx { rep: &mut rep, reported: Default::default() };
     single_grid(&mut ctx, tier);
     listener_grid(&mut ctx);
+    late_poll_grid(&mut ctx);
+    no_runtime_grid(&mut ctx);
     trigger::run(&mut ctx);
     stacks::run(&mut ctx);
     if tier == Tier::Thorough {
